@@ -243,7 +243,7 @@ func (e *Engine) verifyFunc(pkgPath, key string) (fx *FuncCtx, err error) {
 			case unsupported:
 				err = fmt.Errorf("%s: %v", key, x)
 			case specErr:
-				err = fmt.Errorf("%s: contract error: %s", key, x.msg)
+				err = &staleContractErr{key: key, msg: x.msg}
 			default:
 				panic(r)
 			}
@@ -1653,6 +1653,12 @@ func (fx *FuncCtx) execConvert(st *State, in *ssa.Convert) {
 	}
 }
 
+// staleContractErr: a contract clause no longer fits the function it is attached to (it names a local, a call site or a
+// loop the code does not have).  The clause cannot be established for this code: reported as a failed obligation.
+type staleContractErr struct{ key, msg string }
+
+func (e *staleContractErr) Error() string { return e.key + ": contract error: " + e.msg }
+
 func (fx *FuncCtx) makeSliceUnknown(st *State, t types.Type, n string) Val {
 	r := fx.newRef(st, "arr")
 	et := t.Underlying().(*types.Slice).Elem()
@@ -1800,7 +1806,7 @@ func (e *Engine) verifyEnv(pc *PkgContracts, fc *FuncContract, key string) (fx *
 			case unsupported:
 				err = fmt.Errorf("%s: %v", key, x)
 			case specErr:
-				err = fmt.Errorf("%s: contract error: %s", key, x.msg)
+				err = &staleContractErr{key: key, msg: x.msg}
 			default:
 				panic(r)
 			}
